@@ -72,6 +72,17 @@ pub fn main(args: &[String]) -> Result<(), String> {
     let count: usize = get(&m, "count", 100);
     let out = m.get("out").cloned().ok_or("out=<file> required")?;
     let level = m.get("cfgs").cloned().unwrap_or("basic".into());
+    let isolate = m.get("isolate").map(|v| v == "1").unwrap_or(false);
+    let only: Option<usize> = m.get("only").and_then(|v| v.parse().ok());
+    if let Some(i) = only {
+        // child of an isolated run: exactly one session
+        let lines = one_session(kind, &m, seed, i, &level)?;
+        let mut f = std::io::BufWriter::new(std::fs::File::create(&out).map_err(|e| e.to_string())?);
+        for l in lines {
+            writeln!(f, "{}", l).map_err(|e| e.to_string())?;
+        }
+        return Ok(());
+    }
     let threads: usize = std::env::var("VERIF_THREADS").ok().and_then(|v| v.parse().ok()).unwrap_or(12).max(1);
     let results: std::sync::Mutex<Vec<(usize, Vec<String>)>> = std::sync::Mutex::new(vec![]);
     let error: std::sync::Mutex<Option<String>> = std::sync::Mutex::new(None);
@@ -83,7 +94,8 @@ pub fn main(args: &[String]) -> Result<(), String> {
                 if i >= count || error.lock().unwrap().is_some() {
                     break;
                 }
-                match one_session(kind, &m, seed, i, &level) {
+                let r = if isolate { isolated_session(args, i, &out) } else { one_session(kind, &m, seed, i, &level) };
+                match r {
                     Ok(lines) => results.lock().unwrap().push((i, lines)),
                     Err(e) => {
                         *error.lock().unwrap() = Some(e);
@@ -333,4 +345,38 @@ fn tail_record(i: usize, sseed: u64, m: &HashMap<String, String>) -> Result<Valu
         ("big", json!(big)),
     ];
     Ok(session_json_runs(i + 1, &cs, None, vec![("plain".into(), obs)], &extra))
+}
+
+/// Run session i in a child process, so that an abort of the code under test (double panic,
+/// native stack overflow, allocation failure) is data: it yields a record with the field "abort".
+fn isolated_session(args: &[String], i: usize, out: &str) -> Result<Vec<String>, String> {
+    let exe = std::env::current_exe().map_err(|e| e.to_string())?;
+    let tmp = format!("{}.child{}", out, i);
+    let mut a: Vec<String> = vec!["gen".into()];
+    a.extend(args.iter().filter(|x| !x.starts_with("out=") && !x.starts_with("isolate=")).cloned());
+    a.push(format!("only={}", i));
+    a.push(format!("out={}", tmp));
+    let st = std::process::Command::new(exe)
+        .args(&a)
+        .stdout(std::process::Stdio::null())
+        .stderr(std::process::Stdio::null())
+        .status()
+        .map_err(|e| e.to_string())?;
+    let res = if st.success() {
+        let text = std::fs::read_to_string(&tmp).map_err(|e| e.to_string())?;
+        Ok(text.lines().map(|l| l.to_string()).collect())
+    } else {
+        use std::os::unix::process::ExitStatusExt;
+        let how = match st.signal() {
+            Some(sig) => format!("signal {}", sig),
+            None => format!("exit status {}", st.code().unwrap_or(-1)),
+        };
+        let st = crate::enc::SymTab::new();
+        let j = json!({"id": i + 1, "syms": st.to_json(), "forms": [], "runs": [], "text": [],
+                       "abort": how, "kind": args[0].clone(), "tags": ["abort"],
+                       "reproduce": format!("mwverif gen {} only={}", args.join(" "), i)});
+        Ok(vec![j.to_string()])
+    };
+    let _ = std::fs::remove_file(&tmp);
+    res
 }
